@@ -2,13 +2,13 @@
    Only pinned statements, `exact`, and Print Assumptions live here. *)
 From Coq Require Import ZArith List Bool.
 From RV.Model Require Import Base Word.
-From RV.Model Require DivRecip DivSmall DivKnuth Div.
+From RV.Model Require DivRecip DivSmall DivKnuth Div DivRef.
 From RV.Run Require Import RunC14.
-From RV.Proofs Require PfDivBase PfDivRecip PfDiv2x1 PfDiv3x2 PfDivSmall PfDivKnuth PfDiv PfC14.
+From RV.Proofs Require PfDivBase PfDivRecip PfDiv2x1 PfDiv3x2 PfDivSmall PfDivKnuth PfDiv PfDivRef PfC14.
 Import ListNotations.
 Local Open Scope Z_scope.
 
-(* For all slice lengths and all word inputs, each of the eleven public entry points returns
+(* For all slice lengths and all word inputs, each of the fourteen public entry points returns
    what the integer specification RunC14.spec prescribes under its documented precondition
    (floor quotient / remainder in canonical limbs at the given slice lengths, Panic for a zero
    divisor of `div`, the MG10 reciprocals).  wf is plain typing (words are words). *)
@@ -100,6 +100,38 @@ Check C14_div_nxm_normalized : forall n d, Forall inW n -> Forall inW d ->
   DivKnuth.div_nxm_normalized n d =
   Val (to_limbs (length d) (eval n mod eval d) ++ to_limbs (length n - length d) (eval n / eval d)).
 Print Assumptions C14_div_nxm_normalized.
+
+(* the reference kernels (u128 `/` and `%`): same quotient and remainder as the mg10 variants *)
+Theorem C14_reciprocal_ref : forall d, 2 ^ 63 <= d < B ->
+  DivRef.reciprocal_ref d = Val ((B * B - 1) / d - B).
+Proof. exact PfDivRef.reciprocal_ref_ok. Qed.
+Check C14_reciprocal_ref : forall d, 2 ^ 63 <= d < B ->
+  DivRef.reciprocal_ref d = Val ((B * B - 1) / d - B).
+Print Assumptions C14_reciprocal_ref.
+
+Theorem C14_div_2x1_ref : forall u d, 2 ^ 63 <= d < B -> 0 <= u -> u / B < d ->
+  DivRef.div_2x1_ref u d = Val (u / d, u mod d).
+Proof. exact PfDivRef.div_2x1_ref_ok. Qed.
+Check C14_div_2x1_ref : forall u d, 2 ^ 63 <= d < B -> 0 <= u -> u / B < d ->
+  DivRef.div_2x1_ref u d = Val (u / d, u mod d).
+Print Assumptions C14_div_2x1_ref.
+
+Theorem C14_div_3x2_ref : forall n21 n0 d, 2 ^ 127 <= d < B * B -> 0 <= n21 < d -> 0 <= n0 < B ->
+  DivRef.div_3x2_ref n21 n0 d = Val ((n21 * B + n0) / d).
+Proof. exact PfDivRef.div_3x2_ref_ok. Qed.
+Check C14_div_3x2_ref : forall n21 n0 d, 2 ^ 127 <= d < B * B -> 0 <= n21 < d -> 0 <= n0 < B ->
+  DivRef.div_3x2_ref n21 n0 d = Val ((n21 * B + n0) / d).
+Print Assumptions C14_div_3x2_ref.
+
+(* Finding F21 (repaired in the crate, commit 1e97af4): before the repair div_3x2_ref compared
+   q*d0 with n0:r instead of r:n0 and omitted the shift of d0 in the n2 = d1 branch; both
+   witnesses below returned a quotient off by one.  On the repaired code they are exact. *)
+Example C14_F21_regression :
+  (* n2 = d1 branch: the unrepaired code returned B - 1 *)
+  run (div_3x2_ref 128 (2 ^ 127) 0 (2 ^ 127 + 2 ^ 64 - 1)) = Val [TZ (B - 2)] /\
+  (* estimate branch: the unrepaired code returned 0 *)
+  run (div_3x2_ref 128 (2 ^ 64) 0 (2 ^ 127 + 2 ^ 64 - 1)) = Val [TZ 1].
+Proof. repeat split; vm_compute; reflexivity. Qed.
 
 (* Finding D1 (repaired in the crate, commit 233680d): the former witnesses are now outside the
    documented conditions of use and hit the new debug_asserts. *)
